@@ -74,9 +74,14 @@ PROPERTY = Property(
                      '{CR,LF,SP,TAB,a,:,NUL,0x80} up to length 3 (quick) / 4 (thorough) + seeded strings up to 300 '
                      'bytes; forms: BODY[], RFC822, RFC822.SIZE, HEADER+TEXT, 9 partial ranges, the same for the COPY '
                      'and the MOVEd message, BODYSTRUCTURE octets vs BODY[1]',
-                     bounded_bytes('C03'), decisive=False)],
+                     bounded_bytes('C03'), decisive=False),
+             Bounded('the same on the maildir backend (real MaildirBackend on a temporary directory)',
+                     'the 20 special shapes, every string over the alphabet up to length 2 (thorough 3), 60 (600) seeded longer '
+                     'ones; first clause: the stored bytes (BODY[] right after APPEND) equal the appended bytes -- known finding '
+                     'C03-maildir-reserialises-messages; every other clause is then checked against the bytes the backend stored',
+                     bounded_bytes('C03', backend='++'), decisive=False)],
     level='proof', design_ref='6 C03',
     trusted_base=['bytes.find / slicing axioms of the engine', 'MessageHeader/MessageBody keep the line groups they '
                   'are given (bounded)', 'LiteralString writes len(payload) and the payload (bounded)',
-                  'maildir re-serialises through the email package: not covered'],
+                  'maildir: bounded only, see the known finding'],
 )
